@@ -11,16 +11,16 @@ def repo_commits():
 # id -> (level, technique, text, note, design_ref)
 CHECKS = {
  "C01": ("model_checking", "explicit-state BFS over the real Cli to closure; dispatch oracle = reference tokeniser on the hooked line",
-         "Breadth-first exploration of every reachable state of the real Cli (small command/history buffers, 12-key alphabet incl. 1-4 byte characters, editing, recall, completion) to fix-point; on every transition the handler-call count, the received name/arguments, the cleared line and the single fresh prompt are compared with the reference tokeniser applied to the line read through the hook just before Enter.",
+         "Breadth-first exploration of every reachable state of the real Cli (small command/history buffers, 12-key alphabet incl. 1-4 byte characters, editing, recall, completion) to fix-point; on every transition the handler-call count, the received name/arguments, the cleared line and the single fresh prompt are compared with the reference tokeniser applied to the line read through the hook just before Enter. Scale run: lines of up to 129 tokens / 257 bytes in a 300-byte buffer built by checked prefill, every cursor position of them a start of a depth-2 search.",
          "Closure is per (cb,hb) configuration listed in the evidence; alphabets are representative (one character per UTF-8 length). Reference tokeniser/classifier (refs.rs) trusted.", "4 C01"),
  "C05": ("model_checking", "explicit-state BFS over the real Cli to closure; lock-step ideal editor (Vec<char>, cursor)",
-         "All reachable editor states for cb 0..=6 (thorough 0..=8) under insert of 1/2/3/4-byte characters, Backspace, Left, Right, plus configurations where recall/completion/submission replace the line; after every byte the hooked (text,cursor) must equal the ideal editor's.",
+         "All reachable editor states for cb 0..=6 (thorough 0..=8) under insert of 1/2/3/4-byte characters, Backspace, Left, Right, plus configurations where recall/completion/submission replace the line; after every byte the hooked (text,cursor) must equal the ideal editor's. Scale run: lines of 7..258 bytes of 1/2/3/4-byte characters in a 258-byte buffer (thorough: 66..515), built by checked prefill, every cursor position a start of a depth-2 search.",
          "One representative character per encoded length; closure per buffer size; poison differential validates the canonical key.", "4 C05"),
  "C06": ("model_checking", "explicit-state BFS over the real Cli with a lock-step VT100 line emulator; API calls interleaved at key and byte granularity",
-         "Every sink byte of every explored transition is fed to an ECMA-48 line emulator; after every API call (each process_byte, write, set_prompt) the emulated line must be prompt+line and the emulated cursor the editor cursor. Alphabet includes Cli::write, set_prompt (3 prompts), handler output, handler prompt change, one-byte-per-call sink, and a byte-granular run where API calls land inside escape sequences and multi-byte characters.",
+         "Every sink byte of every explored transition is fed to an ECMA-48 line emulator; after every API call (each process_byte, write, set_prompt) the emulated line must be prompt+line and the emulated cursor the editor cursor. Alphabet includes Cli::write, set_prompt (3 prompts), handler output, handler prompt change, one-byte-per-call sink, and a byte-granular run where API calls land inside escape sequences and multi-byte characters. Scale run: lines of up to 257 (513) characters in a 300 (515) byte buffer, every cursor position x every event (typing, recall, Tab, Enter, Cli::write, set_prompt), so cursor-movement counts of 10, 100, 256 occur.",
          "Infinite-width terminal, display width 1 per scalar; emulator (base.rs) trusted; closure per configuration.", "4 C06"),
  "C10": ("model_checking", "explicit-state BFS over the real Cli to closure; deque reference compared with the raw history buffer via refinement mapping",
-         "Closure over submissions/Up/Down/editing for every cb 0..=3 x hb 0..=7 (+ larger thorough configs); in every transition the NUL-split raw history buffer must equal the reference deque (dedupe, oldest-first minimal eviction, no recording of empty/oversize lines) and Up/Down must show exactly the reference entry.",
+         "Closure over submissions/Up/Down/editing for every cb 0..=3 x hb 0..=7 (+ larger thorough configs); in every transition the NUL-split raw history buffer must equal the reference deque (dedupe, oldest-first minimal eviction, no recording of empty/oversize lines) and Up/Down must show exactly the reference entry. Scale run: history buffers of 258 (66..515) bytes filled by checked prefill with ~100 short entries, entries of increasing length and four long entries (offsets beyond 255, evictions of several entries, re-submission of old and recent entries, lines of exactly the history size), then a depth-2 search from each.",
          "Forks allowed where the statement is silent: Down while not navigating, navigation position after an unrecorded Enter.", "4 C10"),
  "C15": ("model_checking", "explicit-state BFS over the real Cli; write/flush event order monitor on every call",
          "The recording sink logs write and flush calls; after every successful API call of every explored transition (the C06 sessions - typing, recall, completion, handler output, Cli::write, set_prompt, one-byte sink, byte-granular - plus sessions over a derived enum and a command group that print help listings, command help, parse errors and handler errors) no written byte may follow the last flush.",
@@ -31,17 +31,17 @@ CHECKS = {
  "C03": ("model_checking", "explicit-state BFS over the real Cli under debug assertions, overflow checks and std unsafe-precondition checks; closure for small buffers, depth-bounded from pre-filled states for buffers up to 64",
          "Every transition runs under catch_unwind in a child process built with debug-assertions and overflow-checks (std's unsafe-precondition checks abort on a violated get_unchecked / copy_nonoverlapping / unwrap_unchecked / from_u32_unchecked precondition); a panic or abort anywhere is the violation, with the path recovered by a journal rerun. Closure for all listed small (cb,hb) incl. 0 and 1 with a wide alphabet (API calls interleaved), raw-byte sessions, decoder closure over all 256 bytes, depth-bounded search from pre-filled states for buffers up to 64 bytes, a shallow search over the whole grid of buffer-size pairs (thorough: all 65x65), a supplementary run under miri (thorough); representation invariants checked in every state; poison differential on dead buffer bytes.",
          "Large buffers are only depth-bounded (evidence lists which explorations are exhaustive). from_utf8_unchecked has no std precondition check: validity is checked by the harness (C02).", "4 C03"),
- "C04": ("model_checking", "explicit-state closure of the real InputGenerator over ~700 key units in lock-step with the per-unit meaning and the greedy CR/LF pairing automaton",
-         "The real InputGenerator is driven by complete key units (every printable ASCII, boundary scalars of each length, CR, LF, BS, TAB, DEL, every other C0 byte, ESC [ params final for every final byte 0x40..0x7E and several parameter strings) from every reachable decoder state to closure, so unit streams of every length are covered; outputs must equal the unit's meaning and terminators follow the 3-state greedy pairing reference.",
+ "C04": ("model_checking", "explicit-state closure of the real InputGenerator over ~700 key units in lock-step with the per-unit meaning and the greedy CR/LF pairing automaton; exhaustive two-instance interleavings (bounded depth) against the solo runs",
+         "The real InputGenerator is driven by complete key units (every printable ASCII, boundary scalars of each length, CR, LF, BS, TAB, DEL, every other C0 byte, ESC [ params final for every final byte 0x40..0x7E and several parameter strings) from every reachable decoder state to closure, so unit streams of every length are covered; outputs must equal the unit's meaning and terminators follow the 3-state greedy pairing reference. 'Depends only on the byte sequence': every interleaving of <= 4 (5) bytes between two fresh decoders and of <= 3-4 (4-5) events between two fresh Cli instances is executed sequentially and each instance's answers and final state are compared with the same instance driven alone.",
          "DEL is left open; bytes inside a CSI other than parameter/intermediate bytes are outside the alphabet.", "4 C04"),
  "C07": ("exploration", "complete enumeration of all lines up to a length bound over a 6-symbol alphabet through the real Tokens::new and through a Cli, against a char-level reference tokeniser; complete enumeration of lists for the round trip",
-         "Every string of <= 9 symbols (thorough 11) over {a, space, quote, backslash, dash, é} (count checked against the closed form) is tokenised by the real Tokens::new and must be one of the token lists the statement admits; every line <= 6 symbols is also typed into a Cli and observed in the handler; every list of <= 3 strings of <= 2 symbols and <= 2 strings of <= 3 symbols is rendered quoted and must tokenise back to itself.",
+         "Every string of <= 9 symbols (thorough 11) over {a, space, quote, backslash, dash, é} (count checked against the closed form) is tokenised by the real Tokens::new and must be one of the token lists the statement admits; every line <= 6 symbols is also typed into a Cli and observed in the handler; every list of <= 3 strings of <= 2 symbols and <= 2 strings of <= 3 symbols is rendered quoted and must tokenise back to itself; every string of <= 4 (6) symbols at every offset 0..=48 (80) of 171 long contexts x 5 continuations, and the round trip of a^i.special.a^j for all i+j <= 40 (72).",
          "Bounded length; forks only for backslash followed by a character other than quote/backslash inside quotes.", "4 C07"),
  "C08": ("exploration", "complete enumeration of token lists (bounded) through Tokens::from_raw + ArgList::args against a reference classifier and the re-join law",
-         "Every list of <= 3 tokens of <= 3 symbols over {-, a, é, 中, 𝄞, space} (17.4 M lists) plus lists over the first/last scalar of every encoded length, through the real ArgsIter; item-by-item equality with the reference classifier and an independently coded re-join law; short lists are also typed quoted after a command name into a Cli.",
+         "Every list of <= 3 tokens of <= 3 symbols over {-, a, é, 中, 𝄞, space} (17.4 M lists) plus lists over the first/last scalar of every encoded length, through the real ArgsIter; item-by-item equality with the reference classifier and an independently coded re-join law; short lists are also typed quoted after a command name into a Cli; lists over {-, a, é} with tokens of <= 5 (6) symbols, and 252 long tokens (0-5 dashes, 33-character names and mixed-width clusters) after 0-9 other tokens, with and without `--`, followed by each other.",
          "Bounded list and token length.", "4 C08"),
  "C13": ("model_checking", "closure of the real Writer's state under 510 output calls, each transition executed end to end in a handler and in Cli::write from 6 editor states; plus BFS sessions with every output call at every editing state",
-         "(i) BFS over the real Writer's (dirty,last_bytes) state x reference (non-empty, ends-in-LF) to closure over write_str / writeln_str / uwrite! / fmt::Write::write_str / character-wise write! and uwrite! with every text of <= 3 symbols over {a, é, LF, CR}; every transition is executed inside a handler on Enter and inside Cli::write in a real Cli and compared byte for byte with conv(script)+(CRLF iff needed)+prompt; (ii) session BFS where every single output call (and some two-call scripts) is made at every reachable editing state, with the terminal emulator checking the line and cursor are redisplayed.",
+         "(i) BFS over the real Writer's (dirty,last_bytes) state x reference (non-empty, ends-in-LF) to closure over write_str / writeln_str / uwrite! / fmt::Write::write_str / character-wise write! and uwrite! with every text of <= 3 symbols over {a, é, LF, CR}; every transition is executed inside a handler on Enter and inside Cli::write in a real Cli and compared byte for byte with conv(script)+(CRLF iff needed)+prompt; (ii) session BFS where every single output call (and some two-call scripts) is made at every reachable editing state, with the terminal emulator checking the line and cursor are redisplayed; (iii) the same on lines of up to 257 characters at every cursor position, with a four-call script of long fragments.",
          "Output alphabet {a, é, LF, CR}; texts <= 3 (thorough 4) symbols.", "4 C13"),
  "C14": ("fault_enumeration", "explicit-state BFS over the real Cli where every sink call position (write and flush) of every transition is failed once / until return; post-fault states are explored to closure",
          "For every reachable state of a session closure (plain derived enum and a CommandGroup of two enums; typing, editing, recall, completion, Enter with handler output / parse error / prompt change, help via -h and help, Cli::write, set_prompt) and every event, the fault-free execution is counted and then re-executed once per sink call position x {fails once, fails until the API call returns}: the call must return Err, must not panic, the decoder state must equal the fault-free one and the line must be as before / as the key leaves it / empty; post-fault states are ordinary BFS states, so later dispatch is checked by the C01 monitor from every one of them (any number of sequential faults).",
@@ -50,7 +50,7 @@ CHECKS = {
          "All 1 112 031 scalars >= U+0020 except U+007F: encode_utf8, char_pop_front, char_count, char_byte_index, common_prefix_len (against code-space neighbours sharing lead bytes) and Utf8Accum vs std; and one Cli session per scalar and neighbour width: type, echo, move over, delete, retype, submit as command name and quoted argument, recall from history, use as short option and see it in the derived parser's error line.",
          "Fixed session shape per scalar.", "4 C17"),
  "C09": ("exploration", "bounded enumeration of derive declarations compiled with the repository's macros x every token line up to a bound over each command's own token alphabet, against a declaration interpreter",
-         "gen.py enumerates a bounded grammar of #[derive(Command)] / #[derive(CommandGroup)] declarations (every single-field shape: positional/option/flag x 6 types x 5 optionality forms x 8 naming forms x value_name; ordered pairs of a 10-shape subset; positional triples; nesting to depth 3; groups with hidden members and a RawCommand catch-all); cargo compiles them with /repo's macros; for every command every line of <= 3 (thorough 4) tokens over its own token alphabet is run through FromRaw::parse (structured ParseError compared exactly) and typed into a real Cli (handler value by Debug rendering, or exactly one `error:` line naming the first offending item) and compared with a reference interpreter of the declaration.",
+         "gen.py enumerates a bounded grammar of #[derive(Command)] / #[derive(CommandGroup)] declarations (every single-field shape: positional/option/flag x 6 types x 5 optionality forms x 8 naming forms x value_name; ordered pairs of a 10-shape subset; positional triples; nesting to depth 3; groups with hidden members and a RawCommand catch-all); cargo compiles them with /repo's macros; for every command every line of <= 3 (thorough 4) tokens over its own token alphabet is run through FromRaw::parse (structured ParseError compared exactly) and typed into a real Cli (handler value by Debug rendering, or exactly one `error:` line naming the first offending item) and compared with a reference interpreter of the declaration. Value conversion: all 17 supported field types x every string of <= 4 (5) symbols over a numeric-looking alphabet plus boundary spellings of every width through FromArgument::from_arg against the type's FromStr.",
          "Bounded declaration grammar; lines whose meaning the statement leaves open (option without value, repeated option, tokens after -- handed to a sub-command) are executed but not compared.", "4 C09"),
  "C11": ("exploration", "bounded enumeration of command-name sets as derived enums (and groups) x every line x cursor position x buffer size, against the longest-common-continuation rule",
          "Every ordered list of <= 3 names from a 13-name pool (shared prefixes, one name a prefix of another, multi-byte names sharing a lead byte, `help`) is one derived enum (quick: all lists of <= 2 plus 54 triples; thorough: all 1885), plus groups of two such enums visible/hidden in both orders; for each, every line of <= 3 (4) symbols over {a,b,é,h,space}, every cursor position and every buffer size from the line length to +6 is built in a real Cli and Tab pressed; the result must be admissible by rule A.4; the derived Autocomplete is also called directly for every word and buffer length.",
